@@ -17,7 +17,9 @@ var rules = []*Rule{
 	{ID: "R2", Title: "FS-ORDER: multi-step file protocols keep a recoverable order", Props: []string{"C05", "C11", "C02", "C01", "C17", "C12", "C07"}, Run: func(p *Prog) []Ob {
 		return append(append(append(append(ruleR2(p), p.overrideTargetObligations()...), p.removeRemovesLog()), p.atomicReplace()...), append(append(append(p.recoverReplaces(), p.recoverBeforeMigrate()...), p.whoMayRemoveSegment()...), p.migrateBeforeOpen()...)...)
 	}},
-	{ID: "R3", Title: "LOCKSET: every shared mutable field has a common guard", Props: []string{"C08", "C09", "C03"}, Run: func(p *Prog) []Ob { return append(append(ruleR3(p), ruleR3c(p)...), p.publishOrder()...) }},
+	{ID: "R3", Title: "LOCKSET: every shared mutable field has a common guard", Props: []string{"C08", "C09", "C03", "C04", "C02", "C12"}, Run: func(p *Prog) []Ob {
+		return append(append(append(ruleR3(p), ruleR3c(p)...), p.publishOrder()...), p.headIsLast()...)
+	}},
 	{ID: "R6", Title: "SENTINEL-IDENTITY: compared sentinels arrive unwrapped and alive", Props: []string{"C03", "C04", "C09", "C10", "C12"}, Run: ruleR6},
 	{ID: "R7", Title: "TAXONOMY and GUARDS", Props: []string{"C04", "C03", "C07", "C09", "C10", "C11", "C12", "C14", "C19"}, Run: ruleR7},
 	{ID: "R8", Title: "KEY-EQUALITY: a hash hit is only a candidate", Props: []string{"C09", "C13", "C14", "C11"}, Run: func(p *Prog) []Ob {
@@ -39,7 +41,7 @@ var rules = []*Rule{
 	{ID: "R19", Title: "VERSION-DISPATCH exhaustive", Props: []string{"C17", "C13", "C15"}, Run: func(p *Prog) []Ob {
 		return append(append(append(ruleR19(p), p.keepRewriteVersionObligations()...), p.configuredVersionVerbatim()...), append(append(append(append(p.eagerMigrationByOption(), p.everySegment()...), p.sizeInConfiguredVersion()...), p.migrationReachableWithRecoverOrCheck()...), p.keepVersionCoversEveryFormat()...)...)
 	}},
-	{ID: "R22", Title: "SEGMENT-TYPESTATE: no use of a segment after its files were removed", Props: []string{"C12", "C01"}, Run: ruleR22},
+	{ID: "R22", Title: "SEGMENT-TYPESTATE: no use of a segment after its files were removed", Props: []string{"C12", "C01", "C03", "C04", "C10"}, Run: ruleR22},
 	{ID: "R23", Title: "MULTI-DRIVER ACCOUNTING: a round's deletions are reported", Props: []string{"C12"}, Run: ruleR23},
 	{ID: "R17", Title: "OFFSET-ASSIGNMENT", Props: []string{"C02", "C01", "C03"}, Run: func(p *Prog) []Ob {
 		return append(append(append(ruleR17(p), p.tailSurvivedObligations()...), p.rolloverFromNonEmpty()...), append(p.nextOffsetFromTheHead(), p.nextOffsetIsNotACount()...)...)
@@ -48,11 +50,11 @@ var rules = []*Rule{
 	{ID: "R18", Title: "SNAPSHOT-REVALIDATION", Props: []string{"C08", "C12", "C03", "C15"}, Run: func(p *Prog) []Ob {
 		return append(append(append(ruleR18(p), p.deleteSerialised()...), p.staleReader()...), append(p.lostRaceIsNotAnAnswer(), p.nothingDeletedMeansNothingToDelete()...)...)
 	}},
-	{ID: "R20", Title: "READER-LIFETIME: destructive segment operations exclude readers", Props: []string{"C08", "C03", "C12", "C04", "C09", "C10"}, Run: func(p *Prog) []Ob {
-		return append(append(append(ruleR20(p), p.closeBeforeReplace()...), p.filesUnderALogLock()...), p.queriesKeepNoState()...)
+	{ID: "R20", Title: "READER-LIFETIME: destructive segment operations exclude readers", Props: []string{"C08", "C03", "C12", "C04", "C09", "C10", "C15", "C20"}, Run: func(p *Prog) []Ob {
+		return append(append(append(ruleR20(p), p.closeBeforeReplace()...), p.filesUnderALogLock()...), append(p.queriesKeepNoState(), p.queryStateIsLifecycleState()...)...)
 	}},
 	{ID: "R21", Title: "HEAD-SCAN-BOUND", Props: []string{"C08"}, Run: ruleR21},
-	{ID: "R9", Title: "FORMAT-TABLES: encoder = decoder = documented layout", Props: []string{"C13", "C17", "C11", "C09", "C04", "C01"}, Run: func(p *Prog) []Ob { return append(ruleR9(p), p.headerFlagsExact()...) }},
+	{ID: "R9", Title: "FORMAT-TABLES: encoder = decoder = documented layout", Props: []string{"C13", "C17", "C11", "C09", "C04", "C01", "C10"}, Run: func(p *Prog) []Ob { return append(ruleR9(p), p.headerFlagsExact()...) }},
 	{ID: "R24", Title: "USE-AFTER-ERROR: placeholder results of failed calls never reach a success", Props: []string{"C01", "C02", "C03", "C04", "C06", "C07", "C08", "C09", "C10", "C12", "C13", "C20"}, Run: ruleR24},
 	{ID: "R25", Title: "BACKUP-COMPLETENESS", Props: []string{"C20"}, Run: func(p *Prog) []Ob { return append(ruleR25(p), p.staleTargetIndexRemoved()...) }},
 	{ID: "R26", Title: "HEAD-INDEX-LIVENESS", Props: []string{"C03", "C08", "C19"}, Run: func(p *Prog) []Ob { return append(ruleR26(p), p.prebuiltIndexStays()...) }},
@@ -66,10 +68,10 @@ var rules = []*Rule{
 	{ID: "R33", Title: "TIME-VERBATIM", Props: []string{"C01", "C10"}, Run: ruleR33},
 	{ID: "R34", Title: "SEGMENT-IDENTITY", Props: []string{"C01", "C12", "C20"}, Run: func(p *Prog) []Ob { return append(ruleR34(p), p.dirIsNotAPrefix()...) }},
 	{ID: "R35", Title: "LOOKUP-OUTCOMES", Props: []string{"C04", "C09", "C10", "C03", "C08"}, Run: func(p *Prog) []Ob { return append(ruleR35(p), p.queryDecisionBasis()...) }},
-	{ID: "R36", Title: "BOUNDARY-HAND-OFF and INDEX-WRAPPERS", Props: []string{"C10", "C09", "C04", "C03", "C13"}, Run: func(p *Prog) []Ob {
+	{ID: "R36", Title: "BOUNDARY-HAND-OFF and INDEX-WRAPPERS", Props: []string{"C10", "C09", "C04", "C03", "C13", "C15"}, Run: func(p *Prog) []Ob {
 		return append(append(append(ruleR36(p), p.indexWrappers()...), p.statFresh()...), append(p.siblingOutcomes(), p.cursorSiblings()...)...)
 	}},
-	{ID: "R39", Title: "PARAMS-FROM-OPTIONS", Props: []string{"C13", "C11"}, Run: ruleR39},
+	{ID: "R39", Title: "PARAMS-FROM-OPTIONS", Props: []string{"C13", "C11", "C17"}, Run: ruleR39},
 	{ID: "R40", Title: "ERROR-DISCIPLINE: no error is dropped outside the clean-up idioms", Props: []string{"C06", "C05", "C01", "C14", "C11", "C12", "C17", "C20"}, Run: ruleR40},
 	{ID: "R37", Title: "FINDER-SHAPE: cursor, selection, bound and key discipline of the trim/compaction finders", Props: []string{"C15", "C16"}, Run: ruleR37},
 	{ID: "R38", Title: "TRIM-PLUMBING: a wrapper deletes exactly what its finder selected", Props: []string{"C15", "C16", "C12"}, Run: ruleR38},
